@@ -585,7 +585,7 @@ int tokens_get(AsmContext *asm_context, char *token, int len)
               else
             if (ch1 == '=')
             {
-              token[ptr++] = ch;
+              token[ptr++] = ch1;
               token_type = TOKEN_EQUALITY;
             }
               else
